@@ -80,6 +80,10 @@ def extract(repo=REPO, config="dev", extra_crate_dirs=()):
     fcntl.flock(lock, fcntl.LOCK_EX)
     try:
         if all(os.path.exists(os.path.join(out, c + ".json")) for c in CRATES):
+            try:
+                os.utime(out, None)  # most recently used: keeps it clear of the pruning below
+            except OSError:
+                pass
             return out, True
         tmp_out = tempfile.mkdtemp(prefix="facts-", dir=CACHE)
         target = tempfile.mkdtemp(prefix="verif-target-")
@@ -120,8 +124,11 @@ def _prune(keep, maxn=int(os.environ.get("VERIF_CACHE_MAX", "6"))):
     ds = [os.path.join(CACHE, d) for d in os.listdir(CACHE) if d.startswith("facts-")]
     ds = [d for d in ds if os.path.isdir(d) and d != keep]
     ds.sort(key=os.path.getmtime, reverse=True)
+    now = time.time()
     for d in ds[maxn:]:
-        shutil.rmtree(d, ignore_errors=True)
+        # never remove an entry used in the last ten minutes: a concurrent check may be loading it
+        if now - os.path.getmtime(d) > 600:
+            shutil.rmtree(d, ignore_errors=True)
 
 
 # --------------------------------------------------------------------------- #
